@@ -80,26 +80,27 @@ func Parse(s string) (*Predicate, error) {
 	if raw[0] != '"' {
 		return nil, fmt.Errorf("predicate.Parse failed to parse since string does not start with \" in %s", s)
 	}
-	idx := strings.Index(raw, "\"@[")
+	// The anchor cannot contain a quote followed by "@[": the last occurrence is
+	// the one that ends the (quoted, possibly quote containing) ID.
+	idx := strings.LastIndex(raw, "\"@[")
 	if idx < 0 {
 		return nil, fmt.Errorf("predicate.Parse could not find anchor definition in %s", raw)
+	}
+	if raw[len(raw)-1] != ']' {
+		return nil, fmt.Errorf("predicate.Parse could not find the end of the anchor definition in %s", raw)
 	}
 	id, ta := raw[0:idx+1], raw[idx+3:len(raw)-1]
 	id, err := strconv.Unquote(id)
 	if err != nil {
 		return nil, fmt.Errorf("predicate.Parse can't unquote id in %s: %v", raw, err)
 	}
-	// TODO: if id has \" inside, it should be unquoted.
 	if ta == "" {
 		return &Predicate{
 			id: ID(id),
 		}, nil
 	}
-	if ta[0] == '"' {
-		ta = ta[1:]
-	}
-	if ta[len(ta)-1] == '"' {
-		ta = ta[:len(ta)-1]
+	if len(ta) >= 2 && ta[0] == '"' && ta[len(ta)-1] == '"' {
+		ta = ta[1 : len(ta)-1]
 	}
 	pta, err := time.Parse(time.RFC3339Nano, ta)
 	if err != nil {
